@@ -127,8 +127,13 @@ Fixpoint subseqb (a b : list cid) : bool :=   (* a is a subsequence of b *)
 Definition flat (streams : list (option (list cid))) : list cid :=
   concat (map (fun s => match s with Some l => l | None => [] end) streams).
 
+Definition countc (c : cid) (l : list cid) : nat := length (filter (cid_eqb c) l).
+
+(** every key of every stream is emitted; the output is a subsequence of the concatenated streams;
+    and a key that occurs in any stream but the last is emitted exactly once (suppression) *)
 Definition spec_prioritized (streams : list (option (list cid))) (out : list cid) : bool :=
-  forallb (fun c => memc c out) (flat streams) && subseqb out (flat streams).
+  forallb (fun c => memc c out) (flat streams) && subseqb out (flat streams) &&
+  forallb (fun c => Nat.eqb (countc c out) 1) (flat (removelast streams)).
 
 (** ---------- cases written by the harness ---------- *)
 Fixpoint insertN (x : N) (l : list N) : list N :=
